@@ -551,7 +551,7 @@ func apply(op Op, pool []modeling.Mesh) (ms []modeling.Mesh, status string, coq 
 				above = append(above, idx[t], idx[t+1], idx[t+2])
 			}
 		}
-		coq = fmt.Sprintf("OMulti %s (Some %d%%N) [] [(%s,None);(%s,None)]", I, attrID(op.Name), cellsCoq(intCells(above)), cellsCoq(intCells(below)))
+		coq = fmt.Sprintf("OMulti %s (Some %d%%N) [Triangle] [(%s,None);(%s,None)]", I, attrID(op.Name), cellsCoq(intCells(above)), cellsCoq(intCells(below)))
 		plane := geometry.NewPlaneFromPoints(vector3.New(c, 0, 0), vector3.New(c, 1, 0), vector3.New(c, 0, 1))
 		if op.Via {
 			// SliceByPlaneTransformer builds both halves and hands back one of them
@@ -559,7 +559,7 @@ func apply(op Op, pool []modeling.Mesh) (ms []modeling.Mesh, status string, coq 
 			if op.N == 1 {
 				side, kept = meshops.BelowPlane, below
 			}
-			coq = fmt.Sprintf("OMulti %s (Some %d%%N) [] [(%s,None)]", I, attrID(op.Name), cellsCoq(intCells(kept)))
+			coq = fmt.Sprintf("OMulti %s (Some %d%%N) [Triangle] [(%s,None)]", I, attrID(op.Name), cellsCoq(intCells(kept)))
 			ms, status = protect(func() []modeling.Mesh {
 				return one(m.Transform(meshops.SliceByPlaneTransformer{Attribute: op.Name, SliceToKeep: side, Plane: plane}))
 			})
@@ -1219,7 +1219,10 @@ func readOnly(what string, m modeling.Mesh) {
 				})
 			})
 		}
-		try(func() { m.ScanPrimitivesParallel(func(i int, p modeling.Primitive) {}) })
+		// (on the other topologies the worker goroutines panic, which nobody can recover from: not called)
+		if t := m.Topology(); t == modeling.TriangleTopology || t == modeling.PointTopology || t == modeling.LineStripTopology {
+			try(func() { m.ScanPrimitivesParallel(func(i int, p modeling.Primitive) {}) })
+		}
 		if m.Topology() == modeling.TriangleTopology {
 			for i := 0; i < m.Indices().Len()/3; i++ {
 				i := i
@@ -1283,9 +1286,10 @@ func readOnly(what string, m modeling.Mesh) {
 			if ext, ok := extent(m, n); ok {
 				size := math.Max(1, ext/6)
 				try(func() { voxelize.Vertices(m, n, size) })
-				if m.Topology() == modeling.TriangleTopology && m.Indices().Len()%3 == 0 {
-					try(func() { voxelize.Surface(m, n, size) })
-				}
+				// voxelize.Surface is NOT called: it does not terminate when a triangle crosses a voxel corner along the
+				// cube diagonal (it subdivides while the rounded corner distance exceeds 1.7, and the distance between
+				// the voxels (0,0,0) and (1,1,1) is sqrt(3) = 1.732 however small the triangle gets) — found by this
+				// harness with seed 2, not a C01 matter (see notes/C01.md)
 			}
 		}
 	case "iterators":
